@@ -9,11 +9,13 @@ for d in sorted(glob.glob('/verif/seeded/*/')):
     how = 'concrete failing input' if not det.get('no_failing_input_found_only') else 'broken obligation / correspondence (no-failing-input-found)'
     keys = det.get('finding_keys') or det.get('broken_obligations') or []
     summ = (m.get('summary') or '').replace('\n', ' ').replace('|', '/')
-    summ = summ[:150] + ('…' if len(summ) > 150 else '')
+    summ = summ[:120] + ('…' if len(summ) > 120 else '')
     needs = (m.get('needs') or '').replace('\n', ' ').replace('|', '/')
-    needs = needs[:140] + ('…' if len(needs) > 140 else '')
-    rows.append("| %s | %s | %s | %s: `%s` |" % (sid, summ, needs, how, (keys[0] if keys else '?')[:70]))
-tbl = "| id | change | needs, to manifest | caught by `./check <property>` (quick) |\n|---|---|---|---|\n" + "\n".join(rows) + "\n"
+    needs = needs[:100] + ('…' if len(needs) > 100 else '')
+    fp = det.get('first_pass', '')
+    mark = ' †' if fp.startswith('not reported') else (' ‡' if fp else '')
+    rows.append("| %s | %s | %s | %s: `%s`%s |" % (sid, summ, needs, how, (keys[0] if keys else '?')[:70], mark))
+tbl = "| id | change | needs, to manifest | caught by `./check <property>` (quick) |\n|---|---|---|---|\n" + "\n".join(rows) + "\n\n† not reported by the checks as they stood when the change was written, reported after the generic extension described above; ‡ first reported only through a broken obligation or pin, now with a concrete input.\n"
 s = open('/verif/DESIGN.md').read()
 a = s.index("| id | change | needs, to manifest |")
 b = s.index("Contents\n")
